@@ -35,6 +35,12 @@ CHECKS = {
             "(x=T(u), logL=f(x), blob=b(x), u in the cube, whole-record moves, append-only history).",
             "Trusted: purity/injectivity of the fixtures. Pipeline layer covers option combinations pairwise (quick) / 3-wise (thorough) and a two-symbol tape alphabet per iteration.",
             "DESIGN.md §4 C07"),
+    "C08": ("fault_enumeration",
+            "crash-point enumeration over the logged raw I/O operations of the real save path on an in-memory file system (every prefix x torn-write offsets), plus restore/resume exploration from every checkpoint of deviation-bounded runs",
+            "The real save code runs over an in-memory file system that logs create/write/close/fsync/rename; for a first and an overwriting save in each configuration, every prefix of the log and every torn offset of the in-flight write "
+            "is materialised as a crash image whose final name must hold nothing, the complete old or the complete new checkpoint; every checkpoint k written during real runs (clustering, blobs, pool object / real pool, kernel, resampler, progress bar, "
+            "picklable and un-picklable stderr) is loaded into a fresh sampler (bit-equal current+history, n_total) and resumed (numbering k+1, calls, schedule, immutable prefix, run post-conditions).",
+            "Trusted: the process-crash model (completed writes persist, in-flight write torn, buffers lost; no power-loss reordering); I/O is intercepted at open/os/pathlib as resolved by tempest.core and tempest.state_manager.", "DESIGN.md §4 C08"),
     "C12": ("model_checking",
             "terminal-state exploration of deviation-bounded runs over a covering array; exhaustive product of posterior() options x trimming parameters x scripted resampling offsets on every terminal state, against the reference MIS model",
             "Every terminal state reached by the real run() with <=1 tape deviation per configuration (pairwise/3-wise covering array of kernel, resampler, clustering, metric, evaluation, boundary, n_total, ess_ratio, target) "
@@ -52,6 +58,12 @@ CHECKS = {
             "is placed in every coordinate of 1-D (d<=3) and 2-D arrays under every one of the 3^d role assignments; results are compared with the exact rational mod-1 / triangle fold, idempotence, untouched strict coordinates, "
             "unmodified input and the exact truth table of check_bounds.",
             "Trusted: Python Fraction arithmetic. Doubles outside the lattice are represented by their binade/neighbourhood class only. The 'symmetric proposal o fold is symmetric' consequence is decided under C03.", "DESIGN.md §4 C16"),
+    "C17": ("model_checking",
+            "explicit-state exploration of all public-operation sequences up to a depth on the real StateManager next to a deep-copy reference model, with np.shares_memory and caller-side overwrites after every accessor; twin-run differential oracle at sampler level",
+            "All sequences over 22 public operations (setters, commit, every getter, results, weights, export, import, save/load) up to depth 4 (quick) / 5 (thorough) are replayed on a fresh real object; after every accessor the returned arrays must not share memory "
+            "with any internal array and are overwritten by the caller, after every operation internal state and cache must equal the deep-copy model; commits must grow each recorded history by exactly one batch. Sampler layer: all accessor sequences (depth 2/3) between real iterations, "
+            "with overwrites, must leave later iterations bit-identical to an untouched twin run.",
+            "Trusted: the reference model (dict/list deep copies). copy=False setters are outside the property.", "DESIGN.md §4 C17"),
     "C18": ("model_checking",
             "exhaustive one-factor-at-a-time enumeration of invalid values over 4 base configurations; covering-array exploration (pairwise / 3-wise) of the constructor option product with complete real runs and delta-minimisation of failures",
             "All listed constraint violations x 4 valid bases must be rejected by the constructor with zero likelihood/prior calls; every row of a strength-2 (quick) / strength-3 (thorough) covering array over 14 constructor options "
